@@ -84,7 +84,10 @@ PROPS["C04"] = dict(
          "termination; distinct = case text.",
     assumptions=["regularity is judged exactly (rank over Q of the basis matrix assembled from the model) for bases returned by solves"],
     min_nontrivial=dict(quick=4000, thorough=150000),
-    stages=[dict(name="hist", target="hist", x=dict(prop="C04"), quick=dict(cases=1500, maxsize=80), thorough=dict(cases=40000, maxsize=100))],
+    stages=[dict(name="hist", target="hist", x=dict(prop="C04"), quick=dict(cases=1500, maxsize=80), thorough=dict(cases=40000, maxsize=100)),
+            # exact solves (all exact-solver options incl. EQTRANS): the rational vectors must be exactly the basic solution of the
+            # returned basis (every nonbasic variable exactly on the bound its status names, zero dual values on basic variables)
+            dict(name="exactbasis", target="exact", x=dict(prop="C04"), quick=dict(cases=150, maxsize=70, timeout=2400), thorough=dict(cases=3000, maxsize=100))],
 )
 
 PROPS["C03"] = dict(
